@@ -21,14 +21,22 @@ let parse_wspec (s : string) =
       let table = List.map (fun rg ->
         List.map (fun ch -> if ch = "" then [] else List.map (fun pg -> split_on '.' pg) (split_on '/' ch))
           (split_on ';' rg)) (split_on '|' rgs) in
-      (int_of_string codec, cols, table)
+      (* "<codec>" or "<codec>d" (d: values are dictionary encoded, i.e. not PLAIN) *)
+      let plain = not (String.length codec > 0 && codec.[String.length codec - 1] = 'd') in
+      let codec = if plain then codec else String.sub codec 0 (String.length codec - 1) in
+      (int_of_string codec, plain, cols, table)
   | _ -> failwith "bad-spec"
 
 let page_of (rows : string list) : string Reader_ext.page =
   { Reader_ext.pg_levels = List.map (fun r -> if r = "N" then N0 else n_of_int 1) rows;
     Reader_ext.pg_vals = List.filter (fun r -> r <> "N") rows }
 
-let fixed_width t = (t = "i32" || t = "i64" || t = "f32" || t = "f64" || (String.length t > 2 && String.sub t 0 2 = "fl"))
+(* physical type id of a column type token *)
+let type_id t =
+  if t = "bool" then 0 else if t = "i32" then 1 else if t = "i64" then 2 else if t = "f32" then 4
+  else if t = "f64" then 5 else if t = "ba" then 6 else 7
+(* zero-copy eligibility of a chunk: codec UNCOMPRESSED, encoding PLAIN, type accepted by the regenerated rule *)
+let eligible codec plain t = codec = 0 && plain && Reader_ext.reader_zero_copy_type (nat_of_int (type_id t))
 
 let parse_ops (s : string) : Reader_ext.op list =
   List.map (fun t ->
@@ -64,16 +72,48 @@ let fault_name = function
 let handle toks =
   match toks with
   | ["col"; mode; _verify; spec; rg; col; ops] ->
-      let (codec, cols, table) = parse_wspec spec in
+      let (codec, plain, cols, table) = parse_wspec spec in
       let c = int_of_string col and g = int_of_string rg in
       let cd = List.nth cols c in
       let pages = List.map page_of (List.nth (List.nth table g) c) in
       let max_def = if cd.cnullable then n_of_int 1 else N0 in
-      let zc = mode <> "f" && codec = 0 && fixed_width cd.ctyp in
+      let zc = mode <> "f" && eligible codec plain cd.ctyp in
       let st = Reader_ext.open0 max_def zc pages in
       (match Reader_ext.run garbage true (parse_ops ops) st with
        | Reader_ext.Ok outs -> "OK " ^ String.concat " " (List.map (print_out cd.cnullable) outs)
        | Reader_ext.Err _ -> "MODEL-ERR"
        | Reader_ext.Fault f -> "MODEL-FAULT " ^ fault_name f)
+  | ["bat"; mode; _verify; spec; bs; proj] ->
+      let (codec, plain, cols, table) = parse_wspec spec in
+      let m = (match mode with "f" -> Reader_ext.Fread | "m" -> Reader_ext.Mmap | _ -> Reader_ext.Buffer) in
+      let file = List.map (fun rg ->
+        List.mapi (fun i ch ->
+          let cd = List.nth cols i in
+          { Reader_ext.ch_max_def = (if cd.cnullable then n_of_int 1 else N0);
+            Reader_ext.ch_pages = List.map page_of ch;
+            Reader_ext.ch_eligible = eligible codec plain cd.ctyp }) rg) table in
+      let names = List.map (fun c -> c.cname) cols in
+      let rec index_of x l i = match l with [] -> failwith "no-such-column" | y :: t -> if x = y then i else index_of x t (i + 1) in
+      let pcols =
+        if proj = "all" then List.mapi (fun i _ -> i) cols
+        else if String.sub proj 0 2 = "i:" then List.map int_of_string (split_on ',' (String.sub proj 2 (String.length proj - 2)))
+        else List.map (fun nm -> index_of nm names 0) (split_on ',' (String.sub proj 2 (String.length proj - 2))) in
+      let bits l = if l = [] then "-" else String.concat "" (List.map (fun b -> if b then "1" else "0") l) in
+      let vals l = if l = [] then "-" else String.concat "." (List.map (fun v -> if v = "" then "-" else v) l) in
+      (match Reader_ext.batches garbage true true m file (List.map nat_of_int pcols) (z_of_int (int_of_string bs)) with
+       | Reader_ext.Ok (bl, status) ->
+           let pb (b : string Reader_ext.batch) =
+             Printf.sprintf "B%d[%s]" (int_of_z b.Reader_ext.b_num_rows)
+               (String.concat "|" (List.map (fun (c : string Reader_ext.batch_col) ->
+                  Printf.sprintf "%d:%s:%s" (int_of_z c.Reader_ext.bc_num_values) (bits c.Reader_ext.bc_bitmap) (vals c.Reader_ext.bc_packed))
+                  b.Reader_ext.b_cols)) in
+           "OK" ^ String.concat "" (List.map (fun b -> " " ^ pb b) bl) ^ Printf.sprintf " E%d L1" (int_of_z status)
+       | Reader_ext.Err _ -> "MODEL-ERR"
+       | Reader_ext.Fault f -> "MODEL-FAULT " ^ fault_name f)
+  | ["foot"; mode; hex] ->
+      let m = (match mode with "f" -> Reader_ext.Fread | "m" -> Reader_ext.Mmap | _ -> Reader_ext.Buffer) in
+      (match Reader_ext.footer_location m (bytes_of_hex hex) with
+       | None -> "ERR"
+       | Some (off, len) -> Printf.sprintf "OK %d %d" (int_of_n off) (int_of_n len))
   | _ -> "RUNNER-ERROR unknown-op"
 let () = main_loop handle
